@@ -16,6 +16,7 @@ import (
 	"crypto/sha512"
 	"fmt"
 	"hash"
+	"os"
 	"sync"
 	"sync/atomic"
 	"testing"
@@ -91,10 +92,34 @@ func vfWireConfidentiality(res *vfResult, p *vfPair, cfg vfCfg, payloads [][]byt
 	cidOf := map[string]int{"c": max(cfg.CIDs, 0), "s": max(cfg.CIDc, 0)}
 	for _, w := range p.Net.Emissions("") {
 		res.Count("datagrams_scanned", 1)
+		// Needles taken from DTLS 1.3 protected handshake messages are not searched inside the records that are
+		// legitimately in clear (epoch-0 ClientHello / ServerHello / HelloRetryRequest fragments): an
+		// EncryptedExtensions body is an echo of public values and, together with a fragment header, can coincide
+		// with bytes of a hello (seen: fragment_length 0x000d followed by the client's use_srtp offer). A protected
+		// message that really leaves in clear is a record of its own and is caught here or by the record-format rules.
+		residue := w.Data
+		if is13 {
+			if recs, ok := vfParseDatagram(w.Data, cidOf[w.From]); ok {
+				residue = nil
+				for _, rc := range recs {
+					if !rc.Unified && rc.Type == 22 && rc.Epoch == 0 {
+						if h, _, okh := vfParseHS(rc.Body); okh && (h.Type == 1 || h.Type == 2) {
+							residue = append(residue, 0xff) // separator: matches do not span a removed record
+							continue
+						}
+					}
+					residue = append(residue, rc.Raw...)
+				}
+			}
+		}
 		for name, nd := range needles {
-			if bytes.Contains(w.Data, nd) {
+			hay := w.Data
+			if vfNeedleClass(name) == "dtls13-protected-handshake" {
+				hay = residue
+			}
+			if bytes.Contains(hay, nd) {
 				res.Violate(fmt.Sprintf("C07:secret-in-clear:%s:%s", ver, vfNeedleClass(name)),
-					fmt.Sprintf("%s: datagram #%d emitted by %s contains %s in clear (%s)", scenario, w.Idx, w.From, name, vfDescribe(w.Data, cidOf[w.From])), replay)
+					fmt.Sprintf("%s: datagram #%d emitted by %s contains %s in clear (%s) [needle %s]", scenario, w.Idx, w.From, name, vfDescribe(w.Data, cidOf[w.From]), vfHex(nd[:min(len(nd), 24)])), replay)
 			}
 		}
 		recs, ok := vfParseDatagram(w.Data, cidOf[w.From])
@@ -540,6 +565,27 @@ func TestVF_C07(t *testing.T) {
 	res.Assume("secrecy itself is not observable: (d) refutes membership in an explicit finite family of derivations that need no secret",
 		"markers are >= 16 random bytes, so a match inside ciphertext has negligible probability")
 	suites := vfAllSuites()
+	if vfEnv().Replay != "" {
+		var rf struct {
+			Replay struct {
+				Case *int `json:"case"`
+			} `json:"replay"`
+		}
+		vfLoadReplay(t, &rf)
+		if rf.Replay.Case != nil {
+			// (key pairs and record-number masks are fresh on every run: the configuration and fault mask are replayed)
+			vfDumpWire = os.Getenv("VERIF_DUMP") != ""
+			i := *rf.Replay.Case
+			for k := 0; k < 20 && len(res.Violations) == 0; k++ {
+				synctest.Test(t, func(t *testing.T) { vfC07Session(t, res, i, suites[i%len(suites)]) })
+			}
+			res.NonTrivial("replay-extra")
+			res.Sample("replay")
+			res.Finish(t)
+
+			return
+		}
+	}
 	per := vfPick(40, 1500)
 	vfBubbles(t, per*len(suites), func(t *testing.T, i int) { vfC07Session(t, res, i, suites[i%len(suites)]) })
 	ns := vfPick(300, 8000)
